@@ -54,6 +54,22 @@ func TestCheck(t *testing.T) {
 		c.FP(swarm.ClassOf(stats, "answer:truth", "answer:corrupt", "answer:short", "answer:empty", "answer:overlong", "answer:misplaced", "answer:duplicate", "answer:reject", "choke", "disconnect", "donthave", "bitfield-change", "evict", "recv:request", "recv:cancel"), answered && dropped && stats["recv:request"] > 0)
 		c.End()
 	}
+	if os.Getenv("VERIF_RACE_SUBSET") == "" {
+		nm := r.Env.N(96, 3000)
+		for k := 0; k < nm; k++ {
+			i := n + k
+			if !r.Mine(i) {
+				continue
+			}
+			c := r.Begin(i, map[string]any{"workload": "adverts-before-metadata"})
+			st := magnetAdverts(t, c, prop, r.Env.Rng(i))
+			for kk, v := range st {
+				c.Count(kk, int64(v))
+			}
+			c.FP(swarm.ClassOf(st, "advert:haveall", "advert:havenone", "advert:have", "advert:bitfield", "recv:request"), st["metadata_completed_after_adverts"] > 0 && st["recv:request"] > 0)
+			c.End()
+		}
+	}
 	r.Finish()
 }
 
